@@ -16,7 +16,7 @@ pub fn from_json_enum(ast: DeriveInput, r#enum: &DataEnum) -> TokenStream {
     let names: Vec<String> = variants
         .iter()
         .map(|variant| {
-            if variant.attrs.is_empty() {
+            if !variant.attrs.iter().any(|attr| attr.path.is_ident("rename")) {
                 variant.ident.to_string()
             } else {
                 let attr = variant
@@ -71,7 +71,7 @@ pub fn into_json_enum(ast: DeriveInput, r#enum: &DataEnum) -> TokenStream {
     let names: Vec<String> = variants
         .iter()
         .map(|variant| {
-            if variant.attrs.is_empty() {
+            if !variant.attrs.iter().any(|attr| attr.path.is_ident("rename")) {
                 variant.ident.to_string()
             } else {
                 let attr = variant
